@@ -381,6 +381,10 @@ func (k Keeper) computeOutAmtGivenIn(
 	if swapState.amountSpecifiedRemaining.IsNegative() {
 		return SwapResult{}, PoolUpdates{}, types.ErrOverChargeGivenIn
 	}
+	// the price limit was reached before the whole input was consumed: never fill partially
+	if swapState.amountSpecifiedRemaining.IsPositive() {
+		return SwapResult{}, PoolUpdates{}, types.ErrInsufficientLiquidity
+	}
 
 	if updateAccumulators {
 		feeGrowth := sdk.DecCoin{Denom: minTokenIn.Denom, Amount: swapState.globalFeeGrowthPerUnitLiquidity}
@@ -483,6 +487,10 @@ func (k Keeper) computeInAmtGivenOut(
 
 	if swapState.amountSpecifiedRemaining.IsNegative() {
 		return SwapResult{}, PoolUpdates{}, fmt.Errorf("over charged problem swap in given out by %s", swapState.amountSpecifiedRemaining)
+	}
+	// the price limit was reached before the whole output was produced: never fill partially
+	if swapState.amountSpecifiedRemaining.IsPositive() {
+		return SwapResult{}, PoolUpdates{}, types.ErrInsufficientLiquidity
 	}
 
 	if updateAccumulators {
